@@ -217,6 +217,35 @@ def _patch_crosshair():
                 return True
 
     LazyIntSymbolicStr.__eq__ = str_eq
+
+    # CrossHair bug: ShellMutableMap (the model behind dict(...) under tracing) iterates overwritten keys last, whereas a real
+    # dict keeps the position of a key whose value is replaced (Token.attrSet("alt", ...) at render time reordered attributes).
+    from crosshair import simplestructs
+
+    _DEL = simplestructs._DELETED
+
+    def smm_iter(self):
+        mutations = self._mutations
+        mkeys = list(mutations.keys())  # compare against a list to avoid hashing
+        inner_keys = []
+        for k in self._inner:
+            inner_keys.append(k)
+            if k in mkeys:
+                if mutations[k] is not _DEL:
+                    yield k
+            else:
+                yield k
+        for k, v in mutations.items():
+            if v is not _DEL and k not in inner_keys:
+                yield k
+
+    simplestructs.ShellMutableMap.__iter__ = smm_iter
+
+    # CrossHair bug: Pattern.search on a symbolic string never tries the end position (`while pos < endpos`), so patterns
+    # that match the empty string at the end - `^$` on an empty line in html_block - never match.  Same function, loop bound fixed.
+    ns = relib.__dict__
+    exec(_FIXED_SEARCH_SRC, ns)
+    relib._search.__code__ = ns["_search_fixed"].__code__
     _install_quote_model()
     _PATCHED = True
 
@@ -241,6 +270,33 @@ def _install_quote_model():
 
     me.encode_uri_component = quote_model
 
+
+_FIXED_SEARCH_SRC = '''
+def _search_fixed(self, string, pos=0, endpos=None):
+    chr, ord = _check_str_or_bytes(self, string)
+    if not isinstance(pos, int):
+        raise TypeError
+    if not (endpos is None or isinstance(endpos, int)):
+        raise TypeError
+    pos, endpos = realize(pos), realize(endpos)
+    mylen = string.__len__()
+    with NoTracing():
+        if isinstance(string, (AnySymbolicStr, BytesLike)):
+            pos, endpos, _ = slice(pos, endpos, 1).indices(realize(mylen))
+            try:
+                while pos <= endpos:
+                    match = _match_pattern(self, string, pos, endpos, chr=chr, ord=ord)
+                    if match:
+                        return match
+                    pos += 1
+                return None
+            except ReUnhandled as e:
+                debug("Unsupported symbolic regex", self.pattern, e)
+        if endpos is None:
+            return re.Pattern.search(self, realize(string), pos)
+        else:
+            return re.Pattern.search(self, realize(string), pos, endpos)
+'''
 
 # state shared between the generated harness function and run_job
 _CUR: dict = {}
